@@ -1841,10 +1841,38 @@ fn gen_c13(o: &mut Out, _r: &mut Rng, tier: &str) {
                     for cert in ["good", "wrongname", "untrusted"] {
                         for addr in ["host", "ip", "ip6"] {
                             id += 1;
+                            // the request's command rotates (what is protected must not depend on what is said)
+                            let cmd = [272u32, 257, 280, 282][id % 4];
                             o.case(&format!("cell ctls={} verify={} stls={} cert={} addr={}", ctls, verify, stls, cert, addr));
-                            o.line(&format!("tls ctls={} verify={} stls={} cert={} addr={} id={}", ctls, verify, stls, cert, addr, id));
+                            o.line(&format!("tls ctls={} verify={} stls={} cert={} addr={} id={} cmd={}", ctls, verify, stls, cert, addr, id, cmd));
                         }
                     }
+                }
+            }
+        }
+    }
+    // a plain-text client against a TLS server, every base command (Capabilities-Exchange first of all)
+    for cmd in [257u32, 280, 282, 271, 272] {
+        for addr in ["host", "ip"] {
+            id += 1;
+            o.case(&format!("plain-to-tls cmd={} addr={}", cmd, addr));
+            o.line(&format!("tls ctls=0 verify=0 stls=1 cert=good addr={} id={} cmd={}", addr, id, cmd));
+        }
+    }
+    // sequences of connections in one fresh process: the settings of an earlier client (or listener) must not leak into
+    // a later one. Every ordered pair of the client configurations below, against the server that separates them.
+    let confs = [(1, 1), (1, 0), (0, 0)];
+    for a in confs {
+        for b in confs {
+            if a == b {
+                continue;
+            }
+            for (stls, cert) in [(1, "untrusted"), (1, "good"), (0, "good")] {
+                for addr in ["host", "ip"] {
+                    id += 2;
+                    let cell = |c: (i32, i32), n: usize| format!("ctls={},verify={},stls={},cert={},addr={},id={},cmd=272", c.0, c.1, stls, cert, addr, n);
+                    o.case(&format!("sequence first={}{} then={}{} stls={} cert={} addr={}", a.0, a.1, b.0, b.1, stls, cert, addr));
+                    o.line(&format!("tlsq {};{};{}", cell(a, id), cell(b, id + 1), cell(a, id + 1000)));
                 }
             }
         }
